@@ -19,11 +19,13 @@ type C10Node struct {
 	Strategy string    `json:"strategy,omitempty"`
 	Size     int       `json:"size,omitempty"`
 	Children []C10Node `json:"children,omitempty"`
+	Trap     bool      `json:"trap,omitempty"`      // leaf actor / pool workers trap exit signals
+	FailInit int       `json:"fail_init,omitempty"` // pool: the k-th worker (1-based) fails in Init
 }
 
 type C10Fault struct {
 	Target int    `json:"target"` // index into the processes recorded so far (modulo)
-	How    string `json:"how"`    // kill | error | panic | normal | shutdown
+	How    string `json:"how"`    // kill | error | panic | normal | shutdown | busy (handler takes 2 simulated seconds) | disable (supervisor disables its first child)
 	Phase  string `json:"phase"`  // startup | steady
 }
 
@@ -32,6 +34,9 @@ type C10Case struct {
 	InApp  bool       `json:"in_app"`
 	Faults []C10Fault `json:"faults"`
 	Final  string     `json:"final"` // none | appstop | appstopforce | nodestop | killroot
+	// Rush: the final action follows the steady-state faults at once (it lands in the restart or
+	// shutdown they started) instead of after the tree has settled
+	Rush bool `json:"rush,omitempty"`
 }
 
 type c10 struct{}
@@ -58,15 +63,19 @@ func (c10) Components() ([]string, []string) {
 func genC10Node(r *simkit.Rand, depth int, budget *int) C10Node {
 	*budget--
 	if depth >= 2 || *budget <= 0 {
-		return C10Node{Kind: "actor"}
+		return C10Node{Kind: "actor", Trap: r.Chance(0.3)}
 	}
 	switch r.Intn(6) {
 	case 0, 1:
-		return C10Node{Kind: "actor"}
+		return C10Node{Kind: "actor", Trap: r.Chance(0.3)}
 	case 2:
 		sz := r.Range(1, 3)
 		*budget -= sz
-		return C10Node{Kind: "pool", Size: sz}
+		nd := C10Node{Kind: "pool", Size: sz, Trap: r.Chance(0.3)}
+		if r.Chance(0.15) {
+			nd.FailInit = r.Range(1, sz)
+		}
+		return nd
 	}
 	n := C10Node{Kind: "sup", Type: simkit.Pick(r, "ofo", "afo", "rfo"), Strategy: simkit.Pick(r, "transient", "temporary", "permanent")}
 	for i, k := 0, r.Range(1, 3); i < k && *budget > 0; i++ {
@@ -89,6 +98,17 @@ func (c10) Generate(r *simkit.Rand, tier string) any {
 	for i := 0; i < nf; i++ {
 		c.Faults = append(c.Faults, C10Fault{Target: r.Intn(32), How: simkit.Pick(r, "kill", "kill", "error", "panic", "normal", "shutdown"),
 			Phase: simkit.Pick(r, "startup", "steady", "steady")})
+	}
+	if r.Chance(0.35) {
+		// a stop request that lands in a restart or in a shutdown in progress: some process is busy
+		// (slow to terminate), another one fails, and the final action follows immediately
+		c.Rush = true
+		var fs []C10Fault
+		for i, k := 0, r.Range(1, 2); i < k; i++ {
+			fs = append(fs, C10Fault{Target: r.Intn(32), How: "busy", Phase: "steady"})
+		}
+		fs = append(fs, C10Fault{Target: r.Intn(32), How: simkit.Pick(r, "kill", "error", "panic", "disable", "normal"), Phase: "steady"})
+		c.Faults = append(c.Faults, fs...)
 	}
 	if c.InApp {
 		c.Final = simkit.Pick(r, "none", "appstop", "appstop", "appstopforce", "nodestop", "killroot")
@@ -167,6 +187,7 @@ func (c10) Run(e *simkit.Env, cc any) {
 		e.Logf("start %s (%s)", path, kind)
 	}
 	diedDuringParentInit := false
+	hitBy := map[gen.PID]string{} // processes a fault was injected into directly
 	var aliveFn func(pid gen.PID) bool
 	terminated := func(pid gen.PID) {
 		mu.Lock()
@@ -191,6 +212,9 @@ func (c10) Run(e *simkit.Env, cc any) {
 	onMsg := func(m any) error {
 		if s, ok := m.(string); ok {
 			switch s {
+			case "busy":
+				e.Sleep(2 * time.Second)
+				return nil
 			case "error":
 				return fmt.Errorf("boom")
 			case "normal":
@@ -217,12 +241,38 @@ func (c10) Run(e *simkit.Env, cc any) {
 				}
 				return spec, nil
 			}
-			h.SupMessage = func(p *ProbeSup, from gen.PID, m any) error { return onMsg(m) }
+			h.SupMessage = func(p *ProbeSup, from gen.PID, m any) error {
+				if m == "disable" {
+					if len(nd.Children) > 0 {
+						err := p.DisableChild(gen.Atom("n" + path + ".0"))
+						e.Logf("%s disables its first child -> %v", path, err)
+					}
+					return nil
+				}
+				return onMsg(m)
+			}
 			h.SupTerminate = func(p *ProbeSup, reason error) { terminated(p.PID()) }
 			return ProbeSupFactory(h)
 		case "pool":
-			wh := &Hooks{Name: path + ".w", Env: e}
-			wh.Init = func(p *Probe, args ...any) error { record(p, "worker", path+".w"); return nil }
+			wh := &Hooks{Name: path + ".w", Env: e, Trap: nd.Trap}
+			nWorkers := 0
+			wh.Init = func(p *Probe, args ...any) error {
+				record(p, "worker", path+".w")
+				mu.Lock()
+				nWorkers++
+				k := nWorkers
+				mu.Unlock()
+				if nd.FailInit > 0 && k == nd.FailInit {
+					e.Logf("worker %d of %s fails in Init", k, path)
+					mu.Lock()
+					if r := byPID[p.PID()]; r != nil {
+						r.term, r.termStep = true, e.Step()
+					}
+					mu.Unlock()
+					return fmt.Errorf("worker init failed")
+				}
+				return nil
+			}
 			wh.Message = func(p *Probe, from gen.PID, m any) error { return onMsg(m) }
 			wh.Terminate = func(p *Probe, reason error) { terminated(p.PID()) }
 			h.PoolInit = func(p *ProbePool, args ...any) (act.PoolOptions, error) {
@@ -233,6 +283,7 @@ func (c10) Run(e *simkit.Env, cc any) {
 			h.PoolTerminate = func(p *ProbePool, reason error) { terminated(p.PID()) }
 			return ProbePoolFactory(h)
 		}
+		h.Trap = nd.Trap
 		h.Init = func(p *Probe, args ...any) error { record(p, "actor", path); return nil }
 		h.Message = func(p *Probe, from gen.PID, m any) error { return onMsg(m) }
 		h.Terminate = func(p *Probe, reason error) { terminated(p.PID()) }
@@ -258,6 +309,13 @@ func (c10) Run(e *simkit.Env, cc any) {
 			e.Logf("fault hits %s while its parent %s is still initialising", r.path, parent.path)
 		}
 		var err error
+		if f.How != "busy" && f.How != "disable" {
+			mu.Lock()
+			if hitBy[r.pid] == "" {
+				hitBy[r.pid] = f.How
+			}
+			mu.Unlock()
+		}
 		switch f.How {
 		case "kill":
 			err = n.Kill(r.pid)
@@ -321,22 +379,29 @@ func (c10) Run(e *simkit.Env, cc any) {
 			e.Gate("harness:between-faults")
 		}
 	}
-	e.Settle(30 * time.Second)
-	// traffic through the pools, so that workers found dead are replaced before the final action
-	mu.Lock()
-	pools := []gen.PID{}
-	for _, r := range recs {
-		if r.kind == "pool" {
-			pools = append(pools, r.pid)
+	if !c.Rush {
+		e.Settle(30 * time.Second)
+		// traffic through the pools, so that workers found dead are replaced before the final action
+		mu.Lock()
+		pools := []gen.PID{}
+		for _, r := range recs {
+			if r.kind == "pool" {
+				pools = append(pools, r.pid)
+			}
+		}
+		mu.Unlock()
+		for _, pp := range pools {
+			for i := 0; i < 4; i++ {
+				n.Send(pp, i)
+			}
+		}
+		e.Settle(5 * time.Second)
+	} else {
+		e.Probe("final-action-during-reaction")
+		if r := e.R.Intn(3); r > 0 {
+			e.Settle(time.Duration(r) * 5 * time.Millisecond)
 		}
 	}
-	mu.Unlock()
-	for _, pp := range pools {
-		for i := 0; i < 4; i++ {
-			n.Send(pp, i)
-		}
-	}
-	e.Settle(5 * time.Second)
 
 	// processes registered right before the final action
 	wasAlive := map[gen.PID]bool{}
@@ -398,7 +463,21 @@ func (c10) Run(e *simkit.Env, cc any) {
 			for _, r := range rs {
 				if !r.term && wasAlive[r.pid] {
 					if c.Final == "nodestop" || alive(r.pid) {
-						e.Fail("C10/stop-returned-early", "%s reported success while %s (%s) had not terminated%s", c.Final, r.path, r.kind, tagOf())
+						// why could it be left behind: the nearest owner above it that is already gone
+						why := ""
+						mu.Lock()
+						for o := byPID[r.parent]; o != nil; o = byPID[o.parent] {
+							if o.term {
+								if o.kind == "pool" {
+									why = " [its owner is a pool, which does not wait for its workers]"
+								} else if h := hitBy[o.pid]; h != "" {
+									why = fmt.Sprintf(" [its owner %s was terminated by an injected %s and could not wait]", o.path, h)
+								}
+								break
+							}
+						}
+						mu.Unlock()
+						e.Fail("C10/stop-returned-early", "%s reported success while %s (%s) had not terminated%s%s", c.Final, r.path, r.kind, why, tagOf())
 						return
 					}
 				}
